@@ -189,6 +189,9 @@ class Folder:
                 return _ew(f, a, b)
             except TypeError as exc:
                 raise Unfoldable(str(exc))
+        if isinstance(node, ast.Call) and self.attrs and unparse(node) in self.attrs:
+            # a call the caller has bound to a value (e.g. `self.field.primitive_element()`)
+            return self.attrs[unparse(node)]
         if isinstance(node, ast.Call) and isinstance(node.func, ast.Attribute) and not (call_name(node) or "").startswith(("torch.", "math.", "np.", "numpy.", "F.", "cmath.")):
             # method form on a foldable receiver: x.abs(), x.sum(dim=..), x.min(dim=..), x.to(..), x.float()
             m = node.func.attr
@@ -227,7 +230,7 @@ class Folder:
                         return [int(red(bool(t) for t in row)) for row in v]
                     return [int(red(bool(row[j]) for row in v)) for j in range(len(v[0]))]
                 raise Unfoldable("any/all over an axis")
-            if m in ("clip", "clamp", "log1p", "minimum", "maximum"):
+            if m in ("clip", "clamp", "log1p", "minimum", "maximum", "flip", "fliplr", "flipud"):
                 fake = ast.Call(func=ast.Attribute(value=ast.Name(id="torch", ctx=ast.Load()), attr=m, ctx=ast.Load()), args=[node.func.value] + list(node.args), keywords=list(node.keywords))
                 return self.fold(fake)
             if m in ("abs", "sum", "prod", "min", "max", "sign", "tanh", "sqrt", "exp", "argmin", "argmax", "amin", "amax", "all", "any", "numel", "dim", "conj", "mean"):
@@ -260,6 +263,38 @@ class Folder:
         if isinstance(node, ast.Call):
             nm = call_name(node) or ""
             short = nm.split(".")[-1]
+            if nm == "isinstance" and len(node.args) == 2:
+                v = self.fold(node.args[0])
+                tn = unparse(node.args[1])
+                table = {"str": str, "int": int, "float": float, "bool": bool, "list": list, "tuple": list, "(list, tuple)": list, "(tuple, list)": list, "torch.Tensor": list}
+                if tn in table:
+                    if table[tn] is int:
+                        return isinstance(v, int) and not isinstance(v, bool)
+                    return isinstance(v, table[tn])
+                raise Unfoldable(f"isinstance against {tn}")
+            if short in ("flip", "fliplr", "flipud") and node.args:
+                v = self.fold(node.args[0])
+                if short == "flip":
+                    dv = self.fold(node.args[1] if len(node.args) > 1 else next((k.value for k in node.keywords if k.arg == "dims"), ast.Constant(value=None)))
+                    dims = dv if isinstance(dv, list) else [dv]
+                else:
+                    dims = [1] if short == "fliplr" else [0]
+                if not isinstance(v, list) or not all(isinstance(d, int) for d in dims):
+                    raise Unfoldable("flip")
+                depth = 0
+                t = v
+                while isinstance(t, list):
+                    depth += 1
+                    t = t[0] if t else None
+                dims = sorted({d % depth for d in dims})
+
+                def _flip(z, level):
+                    if not isinstance(z, list):
+                        return z
+                    out = [_flip(y, level + 1) for y in z]
+                    return out[::-1] if level in dims else out
+
+                return _flip(v, 0)
             if short in ("clip", "clamp") and node.args:
                 v = self.fold(node.args[0])
                 lo = self.fold(node.args[1]) if len(node.args) > 1 else next((self.fold(k.value) for k in node.keywords if k.arg == "min"), None)
@@ -357,6 +392,14 @@ class Folder:
                 try:
                     return _ew(lambda x, y: x**y, a, b)
                 except (TypeError, ZeroDivisionError, OverflowError) as exc:
+                    raise Unfoldable(str(exc))
+            if nm in ("sorted", "enumerate") and len(node.args) == 1 and not node.keywords:
+                v = self.fold(node.args[0])
+                if not isinstance(v, list):
+                    raise Unfoldable(f"call {nm}")
+                try:
+                    return sorted(v) if nm == "sorted" else [[i, x] for i, x in enumerate(v)]
+                except TypeError as exc:
                     raise Unfoldable(str(exc))
             if nm in ("bin", "len", "reversed", "list", "str") and len(node.args) == 1 and not node.keywords:
                 v = self.fold(node.args[0])
